@@ -1,7 +1,8 @@
 #!/bin/bash
 # usage: docs/C10.mutants.sh <mutant>... ; applies each hand-made mutant of spec_classes/methods/core.py in a scratch
 # worktree (/tmp/wt-c10, removed afterwards) and runs `bin/check C10 quick` against it.  Mutants: early_true
-# compare_false_counts missing_eq_none repr_skips_last repr_order subclass_equal probe_spec_class_objects redefault_drops_compare
+# compare_false_counts missing_eq_none missing_eq_none_one_side missing_eq_zero missing_eq_empty_list missing_eq_empty_str
+# missing_eq_sentinel falsy_all_equal repr_skips_last repr_order subclass_equal probe_spec_class_objects redefault_drops_compare
 # compact_key_no_default keyedset_eq_by_key keyedset_repr_unguarded field_repr_from_compare old_eq
 # old_deepcopy old_repr (code 2
 # expected) and type_is deep_marker (model drift, no-failing-input-found, expected).
@@ -34,6 +35,23 @@ elif name == "compare_false_counts":
 elif name == "missing_eq_none":
     rep("            value_self = getattr(self, attr, MISSING)\n            value_other = getattr(other, attr, MISSING)",
         "            value_self = getattr(self, attr, None)\n            value_other = getattr(other, attr, None)")
+elif name == "missing_eq_none_one_side":   # only the left operand's lookup falls back to None
+    rep("            value_self = getattr(self, attr, MISSING)\n", "            value_self = getattr(self, attr, None)\n")
+elif name == "missing_eq_zero":
+    rep("            value_self = getattr(self, attr, MISSING)\n            value_other = getattr(other, attr, MISSING)",
+        "            value_self = getattr(self, attr, 0)\n            value_other = getattr(other, attr, 0)")
+elif name == "missing_eq_empty_list":
+    rep("            value_self = getattr(self, attr, MISSING)\n            value_other = getattr(other, attr, MISSING)",
+        "            value_self = getattr(self, attr, [])\n            value_other = getattr(other, attr, [])")
+elif name == "missing_eq_empty_str":
+    rep("            value_self = getattr(self, attr, MISSING)\n            value_other = getattr(other, attr, MISSING)",
+        "            value_self = getattr(self, attr, '')\n            value_other = getattr(other, attr, '')")
+elif name == "missing_eq_sentinel":        # another sentinel of the library as the fallback
+    rep("            value_self = getattr(self, attr, MISSING)\n            value_other = getattr(other, attr, MISSING)",
+        "            from spec_classes.types.missing import SENTINEL\n            value_self = getattr(self, attr, SENTINEL)\n            value_other = getattr(other, attr, SENTINEL)")
+elif name == "falsy_all_equal":            # all falsy values (missing included) count as equal
+    rep("            if value_self != value_other:\n                return False\n        return True",
+        "            if not value_self and not value_other:\n                continue\n            if value_self != value_other:\n                return False\n        return True")
 elif name == "repr_skips_last":
     rep("            if attr_spec.repr\n        )", "            if attr_spec.repr\n        )[:-1]")
 elif name == "old_eq":
@@ -79,7 +97,7 @@ elif name == "subclass_equal":
 open(p, "w").write(s)
 PY
   echo "=== mutant $name"
-  ( cd /verif && VERIF_REPO=$WT timeout 1200 bin/check C10 quick 2>&1 | tail -4 | cut -c1-420 )
+  ( cd /verif && VERIF_EVIDENCE_DIR=${VERIF_EVIDENCE_DIR:-/tmp/ev-c10-mutants} VERIF_REPO=$WT timeout 1200 bin/check C10 quick 2>&1 | tail -4 | cut -c1-420 )
 }
 for m in "$@"; do run $m; done
 git -C /repo worktree remove --force $WT >/dev/null 2>&1
